@@ -16,6 +16,7 @@ mod lg;
 mod show;
 mod c08;
 mod c06;
+mod c16;
 mod inputs;
 
 #[path = "/repo/harper-ls/src/git_commit_parser.rs"]
@@ -57,6 +58,7 @@ fn main() {
         "c14" => lg::c14(&a),
         "c08" => c08::main(&a),
         "c06" => c06::main(&a),
+        "c16" => c16::main(&a),
         other => {
             eprintln!("unknown subcommand {other}");
             std::process::exit(2);
